@@ -403,6 +403,8 @@ pub async fn start_canary() -> Canary {
                 a = l6.accept() => a,
             };
             let Ok((mut s, _)) = acc else { break };
+            // no TIME_WAIT litter: thousands of short connections must not exhaust the ephemeral ports
+            let _ = s.set_linger(Some(Duration::ZERO));
             a2.fetch_add(1, std::sync::atomic::Ordering::SeqCst);
             let r3 = r2.clone();
             tokio::spawn(async move {
